@@ -38,9 +38,9 @@ CHECKS = {
 
  "C01": {
   "level": "model_checking",
-  "technique": "TLA+ Ideal verdict (Net!IdealVerdicts: per-rule three-valued hits combined with the documented precedence) enumerated by TLC over all small rule lists x tag sets; replayed on real engines (index, buckets, optimiser in the loop)",
+  "technique": "TLA+ Ideal verdict (Net!IdealVerdicts: per-rule three-valued hits combined with the documented precedence) enumerated by TLC over all small rule lists x tag sets; replayed on real engines (index, buckets, optimiser in the loop), incl. check_network_request_subset under all flag combinations (Net!VerdictsSubset); corpus-scale recorded runs validated by Trace_C01",
   "text": "TLC enumerates every list of <=2 (quick) / <=3 (thorough) rules from a 37-rule pool built to stress token boundaries (patterns whose first/last token is only part of a URL token, hostname anchors, scheme-folded rules, domain-dispatched rules), precedence categories, tags and badfilter twins, x every enabled-tag subset, plus all lists of <=3 (quick) / <=4 from a 14-rule pool of tokenless multi-domain rules and near-twins; for every request of the universe it computes the set of verdicts the rule-by-rule meaning allows and each case is executed on real engines built with and without optimisation. TLC also checks that the code-shaped per-rule hit model refines the Ideal outside named deviations.",
-  "note": TB + "The index itself (token histogram, bucket choice) is exercised on the real code through M2 only; its TLA+ model (Tokens) is future work. Lists are small (<=4 rules); large-list effects of the histogram are not covered. Hash collisions assumed absent.",
+  "note": TB + "The index has an explicit model: Tokens.tla (token groups of a rule, probe tokens of a request, IndexComplete checked by TLC in MC_C02) and Optimizer.tla (category lists, histogram bucket choice with tie-breaking, fuse groups; the groups are compared with the debug text of optimised engines, disagreement = model drift, not a violation). Large lists are covered by the corpus stage (Trace_C01: real lists + threshold families, linear-scan oracle). Hash collisions assumed absent.",
  },
  "C04": {
   "level": "model_checking",
@@ -50,15 +50,15 @@ CHECKS = {
  },
  "C05": {
   "level": "model_checking",
-  "technique": "every TLC-enumerated case runs on an optimised and an unoptimised engine against the same Ideal; TLC-generated histories include Blocker::optimize on a live engine",
+  "technique": "explicit TLA+ model of rule storage and fusion (Optimizer.tla: category lists, histogram bucket choice, grouping key, fused matcher) with the design property FuseSound model-checked by TLC on every enumerated list; every case runs on an optimised and an unoptimised engine against the same Ideal and the observed fuse groups are compared with the model's; TLC-generated histories include Blocker::optimize on a live engine",
   "text": "All lists of <=3 (quick) / <=4 rules from 23 same-bucket near-twins that differ in exactly one attribute the optimiser must respect (exception, important, tag, regex-ness, anchors, type, party, domain, hostname anchor, redirect, removeparam), x tag sets; the domain-dispatch pool (rules shared between buckets); both engines must return an Ideal verdict for all requests. The explicit optimise operation is one of the actions of the MC_Engine state machine: every history of 4 (quick) / 5 operations is replayed on a live Blocker built with optimisation on and off.",
   "note": TB + "Equivalence is established through the Ideal, which is stronger than engine-vs-engine comparison except where the Ideal allows several outcomes.",
  },
  "C06": {
   "level": "model_checking",
   "technique": "TLA+ state machine of the engine (rules, tags, saved image; Impl: address-keyed regex cache + nondeterministic allocator); TLC checks history independence over all histories and exports each for replay on one long-lived Blocker/Engine",
-  "text": "MC_Engine models every public mutator as an action (use/enable/disable tags, add_filter, optimize, discard all regexes, serialize, deserialize, query battery). TLC explores every history of 4 (quick) / 5 (thorough) operations, checks that the Impl layer (regex cache keyed by rule address, rules re-allocated at any free address on every tag change) answers every query with the Ideal answer for the current (rules, tags), under every allocator choice, and exports each history; each is replayed on one long-lived real object in three configurations (optimise off/on, aggressive discard policy) and every query step is compared with the Ideal of a freshly built engine. With the pre-fix deviation switched on, TLC reproduces the stale-regex counterexample (thorough self-test).",
-  "note": TB + "Real time is replaced by explicit discards and an aggressive discard policy; the real allocator cannot be forced, so an address-reuse defect is found on the real code only when reuse happens (it did on the pre-fix tree). Cosmetic queries are not part of these histories (covered by C16/C08).",
+  "text": "MC_Engine models every public mutator as an action (use/enable/disable tags, add_filter, optimize, discard all regexes, serialize, deserialize, query battery). TLC explores every history of 4 (quick) / 5 (thorough) operations, checks that the Impl layer (regex cache keyed by rule address, rules re-allocated at any free address on every tag change) answers every query with the Ideal answer for the current (rules, tags), under every allocator choice, and exports each history; each is replayed on one long-lived real object in three configurations (optimise off/on, aggressive discard policy) and every query step is compared with the Ideal of a freshly built engine. With the pre-fix deviation switched on, TLC reproduces the stale-regex counterexample (thorough self-test). Long random histories on ~300-rule objects are validated by Trace_C06. The compiled-regex cache has its own timed model (RegexCache.tla: compile on first use, cleanup by interval / idle time, recompile, discard_regex, policy change, clear on retag): TLC checks its design properties on exact ticks (MC_RegexCache), generates operation scripts in simulation mode that are replayed on real engines with real sleeps, and Trace_Regex validates the recorded run (clock readings taken around every call as intervals, three-valued comparisons, subset construction) - every answer in that run is compared with a fresh engine's.",
+  "note": TB + "In the history stages real time is replaced by explicit discards and an aggressive discard policy (the RegexCache stage uses the real clock); a cache life cycle that differs from RegexCache.tla without changing an answer is reported as drift, not as a violation; the real allocator cannot be forced, so an address-reuse defect is found on the real code only when reuse happens (it did on the pre-fix tree). Cosmetic queries are not part of these histories (covered by C16/C08).",
  },
  "C07": {
   "level": "model_checking",
@@ -77,13 +77,13 @@ CHECKS = {
  "C09": {
   "level": "model_checking",
   "technique": "TLA+ model of hash-seed dependent container iteration vs ordered views (Wire.tla) checked by TLC; recorded serializations (fresh builds, child processes, reloads) validated by a TLA+ trace spec",
-  "text": "M1: Wire.tla gives every hash container of the image a nondeterministic iteration order per process and per reload; TLC checks that the image is one value and a fixpoint when every container goes through an ordered view (and finds the counterexample when one is switched to raw iteration). M3: the real engine serializes 6 (quick) / 30 lists x 3 configurations by 3 fresh in-process builds, 3 / 12 child processes (fresh hash seeds) and after one and two reloads; Trace_C09 keeps the first image per configuration as state and rejects any later different one.",
-  "note": TB + "Bytes are opaque (digest + length). The real hash seeds are sampled (fresh maps, fresh processes), not enumerated; lists are sized so that every container has many entries.",
+  "text": "M1: Wire.tla gives every hash container of the image a nondeterministic iteration order per process and per reload; TLC checks that the image is one value and a fixpoint when every container goes through an ordered view (and finds the counterexample when one is switched to raw iteration). M3: the real engine serializes 6 (quick) / 30 lists x 3 configurations by 3 fresh in-process builds, 3 / 12 child processes (fresh hash seeds) and after one and two reloads, plus 25x as many sparse lists (1-6 rules of 1-3 of 26 kinds: most containers empty, in every combination) in-process; Trace_C09 keeps the first image per configuration as state and rejects any later different one.",
+  "note": TB + "Bytes are opaque (digest + length). The real hash seeds are sampled (fresh maps, fresh processes), not enumerated; big lists are sized so that every container has many entries, sparse lists so that most are empty.",
  },
  "C10": {
   "level": "fault_enumeration",
   "technique": "exhaustive single-fault enumeration (prefixes, bit flips, structural byte substitutions, header variants) + seeded multi-byte/random inputs loaded in sequence into one long-lived engine; the recorded run is validated by a TLA+ trace spec built on Load.tla (atomic load state machine)",
-  "text": "Load.tla states the allowed outcomes of a load (valid image: state replaced, tags kept; rejected: nothing changes; accepted corrupt: any state but no panic) and TLC checks atomicity on it, including that a non-atomic commit (deviation switch) is found. The harness enumerates 22k (quick) / 90k faults of two valid images, loads each into one long-lived engine with enabled tags, runs a 13-query battery (network, csp, cosmetic, class/id, tag_exists) and re-serializes after every load, interleaving valid loads; peak allocation during each load is measured. Trace_C10 replays the whole event sequence through the Load actions: the battery digest after a rejected load must equal the digest of the state before it.",
+  "text": "Load.tla states the allowed outcomes of a load (valid image: state replaced, tags kept; rejected: nothing changes; accepted corrupt: any state but no panic) and TLC checks atomicity on it, including that a non-atomic commit (deviation switch) is found. The harness enumerates 29k (quick) / 110k faults of three valid images (the third holds rules at the edge of what the matchers assume: one-byte, non-ASCII-leading, complete-regex and one-label patterns, none of which matches a battery request so that every one is evaluated by every query), loads each into one long-lived engine with enabled tags, runs a 13-query battery (network, csp, cosmetic, class/id, tag_exists) and re-serializes after every load, interleaving valid loads; peak allocation during each load is measured. Trace_C10 replays the whole event sequence through the Load actions: the battery digest after a rejected load must equal the digest of the state before it.",
   "note": TB + "Allocation bound 64 MiB + 4 KiB/byte (counting allocator). Process aborts would surface as tool errors. Battery digests stand for engine state.",
  },
 
@@ -109,7 +109,7 @@ CHECKS = {
  "C11": {
   "level": "model_checking",
   "technique": "TLC-enumerated lists of annotated lines x formats x rule-type options with the spec's reference list (relational clauses, M2); exhaustive boundary sliding + seeded grammar mutation recorded from the real parser and validated by a TLA+ trace spec (totality clause, thin spec)",
-  "text": "Relational clauses: TLC enumerates all lists of <=2 (quick) / <=3 lines from 42 lines whose outcome per format the spec knows by construction (network, cosmetic, 22 kinds of rejected lines, hosts entries incl. comments, localhost, three fields, invalid characters) x {standard, hosts} x {all, network-only, cosmetic-only}; the engine built from the list (three loading paths) must equal, on a 13-request + 3-page battery, the engine built with default options from the spec's reference lines (accepted lines, '||host^' for hosts entries), and the numbers of parsed rules must match. Totality: 8 multi-byte/whitespace characters slid across every character offset of 37 rule shapes (exhaustive), then seeded mutations/splices of those and of corpus lines, parsed under 4 option sets, loaded between two good lines, plus the 1024-byte metadata cut; Trace_C11 allows only the outcomes the options permit, never a panic, and requires rejected lines to leave the engine unchanged.",
+  "text": "Relational clauses: TLC enumerates all lists of <=2 (quick) / <=3 lines from 42 lines whose outcome per format the spec knows by construction (network, cosmetic, 22 kinds of rejected lines, hosts entries incl. comments, localhost, three fields, invalid characters) x {standard, hosts} x {all, network-only, cosmetic-only}; the engine built from the list (three loading paths) must equal, on a 13-request + 3-page battery, the engine built with default options from the spec's reference lines (accepted lines, '||host^' for hosts entries), and the numbers of parsed rules must match. Totality: 8 multi-byte/whitespace characters slid across every character offset of 37 rule shapes (exhaustive), then seeded mutations/splices of those and of corpus lines, parsed under 4 option sets, loaded between two good lines, plus the 1024-byte metadata cut; list metadata (Title / Homepage / Redirect / Expires with its ranges, first occurrence wins, head-of-list cut) is part of the enumerated lines and compared for read_list_metadata and add_filter_list; Trace_C11 allows only the outcomes the options permit, never a panic, and requires rejected lines to leave the engine unchanged.",
   "note": TB + "For the totality clause the specification only contributes the set of allowed outcomes (DESIGN.md section 8): the exploration strength is the generator's (level exploration for that clause).",
  },
  "C12": {
